@@ -21,6 +21,8 @@ VARIANTS_QUICK = {
     # a getEvent policy that returns a reference to the key argument (not a copy)
     'gxx_string_incl_byvalue_refpolicy': ('g++', 'c++17', ['VH_KEY=1', 'VH_ARGMODE=1', 'VH_GETEVENT=1']),
     'clang_string_incl_byvalue_refpolicy': ('clang++', 'c++14', ['VH_KEY=1', 'VH_ARGMODE=1', 'VH_GETEVENT=1', 'VH_POLICY=1']),
+    # a getEvent policy that takes the listener argument by value (exclude-event form)
+    'gxx_int_excl_byvalue_policy': ('g++', 'c++17', ['VH_KEY=0', 'VH_ARGMODE=0', 'VH_GETEVENT=2']),
 }
 VARIANTS_MORE = {
     'clang_string_excl': ('clang++', 'c++11', ['VH_KEY=1', 'VH_ARGMODE=0', 'VH_MAP=1']),
